@@ -4,8 +4,11 @@
 (* for property C05: the log recovers from a process crash at any instant. *)
 (*                                                                         *)
 (* State                                                                   *)
-(*   cfg = [cap, ret, compact]  records per segment (byte limit / record   *)
-(*         size), retention by messages (0 = none), compaction on Clean    *)
+(*   cfg = [cap, ret, compact, age]  records per segment (byte limit /     *)
+(*         record size), retention by messages (0 = none), compaction on   *)
+(*         Clean, age limit (0 = none; else the cut-off "now - max age":   *)
+(*         a message whose timestamp - the harness uses its value id - is  *)
+(*         below it has expired)                                           *)
 (*   fs  = the partition directory                                         *)
 (*         lf   <<base, sfx>> -> sequence of records     (<base>.log<sfx>) *)
 (*         xf   <<base, sfx>> -> sequence of [off, pos]  (<base>.index<sfx>)*)
@@ -345,11 +348,26 @@ CompactFold(f, rem, all, hw, i, acc) ==
 \* Clean(): retention (newest deletable segment first, as the code collects
 \* them), then compaction of all but the last remaining segment, then the
 \* in-memory swap and the epoch cache update
+\* lastWriteTime of a segment: the timestamp of its last index entry (setupIndex
+\* restores it from there on open; 0 for an empty segment)
+Lwt(f, sg) == LET l == Get(f.lf, Key(sg.base, ""))
+                  x == Get(f.xf, Key(sg.base, "")) IN
+              IF x = <<>> \/ Last(x).pos < 1 \/ Last(x).pos > Len(l) THEN 0 ELSE l[Last(x).pos].val
+\* applyAgeLimit: the leading segments (never the last one) whose last write is older
+\* than the cut-off, up to the first one that is not
+RECURSIVE AgeFrom(_, _, _)
+AgeFrom(f, segs, i) == IF i < Len(segs) /\ Lwt(f, segs[i]) < cfg.age THEN AgeFrom(f, segs, i + 1) ELSE i
+
 PlanClean(f, m) ==
-  LET segs == m.segs
+  LET segs0 == m.segs
+      af == IF cfg.age = 0 \/ Len(segs0) <= 1 THEN 1 ELSE AgeFrom(f, segs0, 1)
+      agePlan == Flat([j \in 1..(af - 1) |->
+                        DeletePlan(Key(segs0[j].base, "")) \o <<CP("retention.after_delete_segment")>>])
+      segs == SubSeq(segs0, af, Len(segs0))
       n == Len(segs)
       kf == KeepFrom(f, segs)
-      retPlan == Flat([j \in 1..(kf - 1) |->
+      retPlan == agePlan \o
+                 Flat([j \in 1..(kf - 1) |->
                         DeletePlan(Key(segs[kf - j].base, "")) \o <<CP("retention.after_delete_segment")>>])
       rem == SubSeq(segs, kf, n)
       doCompact == cfg.compact /\ Len(rem) > 1
@@ -509,7 +527,7 @@ PointsOf(f, m, op) == LET cps == SelectSeq(Plan(f, m, op), LAMBDA h : h.i = "cp"
 (* actions *)
 
 Init ==
-  /\ cfg \in [cap : {2}, ret : {0}, compact : {FALSE}]
+  /\ cfg \in [cap : {2}, ret : {0}, compact : {FALSE}, age : {0}]
   /\ LET R == RecoverFS([lf |-> <<>>, xf |-> <<>>, hwf |-> NoHW, epf |-> <<>>]) IN fs = R.fs /\ mem = R.mem
   /\ obs = [a |-> "Open", ret |-> <<>>, err |-> ""]
 
@@ -625,9 +643,14 @@ StateOK(sc, nw, rd, ep) ==
 
 \* what the interrupted operation was removing / adding (pre = scan before,
 \* lastBase = base offset of the last segment, nw = NewestOffset() before)
+\* a clean may only remove a record that some configured policy can claim:
+\* message-count retention and compaction are judged in detail under C09/C08
+\* (here: anything in front of the last segment), age retention only removes
+\* expired messages, and without any policy nothing is removed
+Justified(r) == cfg.ret > 0 \/ cfg.compact \/ (cfg.age > 0 /\ r.val < cfg.age)
 Removable(op, pre, lastBase) ==
   CASE op.a = "Truncate" -> {r \in RangeOf(pre) : r.off >= op.o}
-    [] op.a = "Clean" -> {r \in RangeOf(pre) : r.off < lastBase}
+    [] op.a = "Clean" -> {r \in RangeOf(pre) : r.off < lastBase /\ Justified(r)}
     [] OTHER -> {}
 Addable(op, nw) ==
   IF op.a \in {"Append", "AppendSet"} THEN RangeOf(Stamp(op.recs, nw + 1)) ELSE {}
@@ -661,7 +684,7 @@ P_Op(op, pre, nw, lastBase, hwPre, o2, sc, hwPost) ==
     [] op.a = "Clean" ->
          /\ o2.err = ""
          /\ IsSubSeq(sc, pre) \/ ~Increasing(pre)
-         /\ \A r \in RangeOf(pre) : r.off >= lastBase => r \in RangeOf(sc)
+         /\ \A r \in RangeOf(pre) : (r.off >= lastBase \/ ~Justified(r)) => r \in RangeOf(sc)
     [] op.a = "Reopen" -> o2.err = "" /\ sc = pre /\ hwPost = hwPre
     [] OTHER -> o2.err = "" /\ sc = pre
 =============================================================================
